@@ -1,8 +1,8 @@
 INIT GenInit
 NEXT GenNext
 CONSTANTS
-  KL = 500
-  KS = 12
+  KL = 250
+  KS = 10
   MaxLen = 4
 INVARIANTS Emit
 CHECK_DEADLOCK FALSE
